@@ -186,12 +186,15 @@ def build():
         """rmtree of the function directory: entries and func_code.py go away (piecewise; crash points in between)."""
         ctx = interp.ctx
         g = ctx.ghost
-        # crash in the middle: any subset of the entries and possibly func_code.py already removed
+        # crash in the middle: any subset of the entries is already removed, and func_code.py possibly too - but, by the contract proved
+        # for StoreBackendMixin.clear_path[sequential] in the store pack (obligations crash-inside.rmtree.results-never-outlive-their-code-file
+        # and the loop invariants of clear_location), the code file only goes once no entry (sub-directory) is left
         if ctx.choose(2, "crash-inside-clear_path?") == 1:
             sub = z3.Const(ctx.fresh_name("HASsub"), z3.ArraySort(Key.sort(), z3.BoolSort()))
             k = z3.Const("k!sub", Key.sort())
             ctx.assume(z3.ForAll([k], z3.Implies(z3.Select(sub, k), z3.Select(g["HAS"].term, k))))
             code_gone = z3.Bool(ctx.fresh_name("code_gone"))
+            ctx.assume(z3.Implies(code_gone, z3.ForAll([k], z3.Not(z3.Select(sub, k)))))
             saved = (g["HAS"], g["CODESTATE"])
             g["HAS"] = Sym(HASK, sub)
             g["CODESTATE"] = Sym(INT, z3.If(code_gone, z3.IntVal(0), ops.as_int_term(saved[1])))
@@ -240,7 +243,7 @@ def build():
         p.models["store." + name] = fn
     p.models["store.get_cached_func_info"] = lambda i, r, a, k: PyDict({"location": STR.fresh(i.ctx, "loc")})
     p.assume_note("abstract store: contains_item/load_item/dump_item/clear_item/get_metadata/store_metadata/clear_path/get_cached_func_code/"
-                  "store_cached_func_code act on (HAS, VAL, CODESTATE, DISKSRC) as documented in contracts/mem.py; dump_item and store_metadata never raise, "
+                  "store_cached_func_code act on (HAS, VAL, CODESTATE, DISKSRC) as documented in contracts/mem.py; clear_path removes the entries before the code file (proved in the store pack); dump_item and store_metadata never raise, "
                   "load_item of a present entry returns its value or raises an Exception; single process between two store calls (C11 handled in the store pack)")
 
     # ------------------------------------------------------------------ user function, hashing, introspection (ASSUMED)
@@ -440,6 +443,16 @@ def build():
         ensures_body={"dumped_once_under_this_call_id": "n_events('dump_item') == 1 and dumped_key() is KEY and n_events('store_metadata') == 1"},
     )
     p.add(call_c)
+    # mmap_mode: the value is re-loaded from the store right after it was written, to hand out a memmap like later calls do.  The entry
+    # may be gone by then (the write failed, or another user of the directory evicted / cleared it): the call still returns the value.
+    import copy as _copy
+    call_m = _copy.copy(call_c)
+    call_m.variant = "mmap_mode"
+    call_m.props = ["C02", "C11", "C05"]
+    call_m.params = dict(call_c.params, self=mfunc(mmap_mode="r"), shelving=False)
+    call_m.ensures = {"SI": "SI()", "executes_once": "EXECS == old(EXECS) + 1", "returns_the_functions_value": "result[0] is ev(CURSRC, KEY)"}
+    call_m.ensures_body = {}
+    p.add(call_m)
 
     cached = Contract(
         MEM, "MemorizedFunc._cached_call", props=["C02", "C06", "C05", "C12", "C14"], ghost=GHOST, globals=glob, setup=setup,
@@ -571,7 +584,32 @@ def build():
         return out
 
     wrappers_accept_every_keyword.props = ["C06"]
-    p.structural = [wrappers_accept_every_keyword]
+
+    # ---- structural (C02): functools.update_wrapper(self, func) copies func.__dict__ into the wrapper's __dict__; whatever the wrapper
+    # relies on (self.func, self.ignore, self.store_backend, ...) has to be assigned AFTER that copy, else an attribute of the user's
+    # function with the same name replaces it (f.func = g made the cached f call g)
+    def function_attributes_never_override_wrapper_state(pack):
+        import ast as _ast
+        from pyvc.contracts import SourceModule
+        mod = SourceModule.get(MEM)
+        out = []
+        for cname in ("MemorizedFunc",):
+            init = mod.funcs.get(cname + ".__init__")
+            if init is None:
+                out.append(("%s.__init__/found" % cname, False, "anchor lost"))
+                continue
+            copy_line = None
+            for n in _ast.walk(init):
+                if isinstance(n, _ast.Call) and _ast.unparse(n.func) in ("functools.update_wrapper", "update_wrapper") and len(n.args) >= 1 and _ast.unparse(n.args[0]) == "self":
+                    copy_line = n.lineno if copy_line is None else min(copy_line, n.lineno)
+            early = sorted({t.attr for st in _ast.walk(init) if isinstance(st, _ast.Assign) for t in st.targets
+                            if isinstance(t, _ast.Attribute) and _ast.unparse(t.value) == "self" and copy_line is not None and st.lineno < copy_line})
+            out.append(("%s.__init__/function-attributes-never-override-wrapper-state" % cname, copy_line is None or not early,
+                        "assigned before functools.update_wrapper(self, func) copies func.__dict__ over them: %r" % (early,)))
+        return out
+
+    function_attributes_never_override_wrapper_state.props = ["C02"]
+    p.structural = [wrappers_accept_every_keyword, function_attributes_never_override_wrapper_state]
     p.spec_funcs["dumped_key"] = lambda interp: key_of([e for e in interp.ctx.events if e[0] == "dump_item"][0][1])
     p.spec_funcs["same"] = lambda interp, a, b: a is b or (isinstance(a, tuple) and isinstance(b, tuple) and all(x is y or ops.identical(x, y) is True for x, y in zip(a, b)))
     return p
